@@ -760,6 +760,11 @@ func runStream(c *Case) *Obs {
 				viol(fmt.Sprintf("%s: message %d decoded as %s, expected %s", name, i, abbreviate(m), abbreviate(w)))
 				return
 			}
+			// the receiver gives the payload buffer of a Piece back to the pool once it has stored the data
+			// (peer.go does after AddData): what is decoded next must not depend on it
+			if pc, ok := m.(protocol.Piece); ok && pc.Data != nil {
+				protocol.PutBuffer(pc.Data)
+			}
 		}
 		if _, err := protocol.Read(br, nil); err != io.EOF {
 			viol(fmt.Sprintf("%s: stream not exhausted after the last message: %v", name, err))
